@@ -26,13 +26,13 @@ def run(c):
         "Go's time package (zone rules, AddDate, Date) is data, not model: monthly cases hand the model the month boundaries "
         "observed on the real StepForward/startOfLOD; the harness checks those boundaries against CalOK's facts",
         "theorems about months assume CalOK for the calendar (6 order facts listed in SH/Lemmas/Timescale.lean)",
-        "points_bounded and range_end_covered are not proved in Lean; they are checked by the direct oracle on the real code "
-        "and by the model/implementation correspondence (see the comment block at the end of SH/Props/C22.lean)",
+        "range_end_covered and lods_with_offset_translated exclude, by an explicit hypothesis, the monthly step combined with a "
+        "non-zero metric time offset (known finding month-offset-coverage; decide witnesses in SH/Props/C22.lean)",
     ]
     binary = c.go_build(HARNESS)
     if binary:
         gen(c, binary)
-    c.prove("SH.Props.C22", extra_files=["SH/Model/Timescale.lean", "SH/Lemmas/Timescale.lean", "SH/Gen/C22.lean"])
+    c.prove("SH.Props.C22", extra_files=["SH/Model/Timescale.lean", "SH/Lemmas/Timescale.lean", "SH/Lemmas/TimescaleEnd.lean", "SH/Gen/C22.lean"])
     drv = c.driver(DRIVER)
     if binary and drv:
         rc, out = c.go_run(binary, [f"-n={c.n(4000, 60000)}"], timeout=1500)
@@ -56,22 +56,25 @@ META = {
                   "calcUTCOffset with tables regenerated from /repo + differential correspondence with the real functions under real "
                   "time.Locations + direct evaluation of the property's predicates on the real output"),
     "text": ("Kernel-checked for every (start, end, step, now, utc offset, width, mode, extend, metric resolutions/offsets) and every "
-             "calendar satisfying CalOK: returned points strictly increase; consecutive points differ by exactly the step of their level "
-             "(calendar month for the monthly step); every point is aligned to its level's step after adding the configured UTC offset "
-             "(month start for monthly); level steps are table resolutions, strictly finer toward the present, every level non-empty; "
-             "StartX = 1 and Time[i] < Start for i < ViewStartX <= Time[ViewStartX]; GetLODs ranges are contiguous, start at Time[0], "
-             "and enumerate exactly Time; mathDiv is floor division; roundTime is the aligned floor; calcUTCOffset aligns 7d steps "
-             "to the configured week start. The model is tied to the code by running each generated tuple through the real functions "
-             "and the compiled model and diffing the full result (levels, indices, first/last point, checksum of all points, ranges)."),
-    "note": ("Partial: the point limit (len <= maxPoints+3) and coverage of the END of the range are not proved in Lean; both are "
-             "evaluated by the direct oracle on the real code for every case and are part of what the correspondence compares. "
+             "calendar satisfying CalOK, all seven conjuncts of the property: returned points strictly increase; consecutive points differ "
+             "by exactly the step of their level (calendar month for the monthly step); every point is aligned to its level's step after "
+             "adding the configured UTC offset (month start for monthly); level steps are table resolutions, strictly finer toward the "
+             "present, every level non-empty; len(Time) <= maxPoints + 3 (points_bounded, via additivity of endOfLOD and a loop invariant); "
+             "StartX = 1, Time[i] < Start for i < ViewStartX <= Time[ViewStartX]; the last non-extension point lies before End, one more "
+             "step of the finest level reaches End, the extend point is exactly that next point and ViewEndX counts the points before it "
+             "(range_end_covered, via a whole-walk invariant of the level loop and table facts decided on the regenerated tables); "
+             "GetLODs ranges are contiguous, start at Time[0] and enumerate exactly Time, and with a metric offset they are the same "
+             "ranges translated by it (lods_with_offset_translated; every metric offset is a multiple of the coarsest step); point "
+             "queries use exactly one level and return an aligned [from, to) with from < to inside the request (covering it with extend); mathDiv is floor "
+             "division; roundTime is the aligned floor; calcUTCOffset aligns 7d steps to the configured week start. The model is tied "
+             "to the code by running each generated tuple through the real functions and the compiled model and diffing the full "
+             "result (levels, indices, first/last point, checksum of all points, ranges)."),
+    "note": ("Explicit exclusion (hypothesis hm, with decide witnesses): monthly step combined with a non-zero metric time offset - "
+             "known finding month-offset-coverage, no small fix. "
              "Trusted: Lean kernel; the model<->code correspondence on generated tuples (quick 4000, thorough 60000); Go's time "
              "package as data (month boundaries are observed, CalOK is assumed for the theorems and checked on the observed "
-             "boundaries). Known finding (no small fix): monthly step combined with a non-zero metric time offset "
-             "miscounts months (sig month-offset-coverage). Defect found by this check and fixed in /repo (4a206645, "
-             "fixes/C22-month-start.diff): in zones where 00:00 of the 1st does not exist (DST switched on at midnight: "
-             "America/Asuncion 2000-10-01 and 2017-10-01, Europe/Moscow 1981-04-01, ...) StepForward/startOfLOD left the month grid "
-             "(sigs month-step-not-month-start, month-start-not-month-start, month-start-inconsistent, gap, unaligned, "
-             "point-unaligned, lods-to-vs-points); the old behaviour is kept as a decide witness (calGapOld) in SH/Props/C22.lean."),
+             "boundaries). Defect found by this check and fixed in /repo (4a206645, fixes/C22-month-start.diff): in zones where 00:00 "
+             "of the 1st does not exist (DST switched on at midnight: America/Asuncion 2000-10-01 and 2017-10-01, Europe/Moscow "
+             "1981-04-01, ...) StepForward/startOfLOD left the month grid; the old behaviour is kept as a decide witness (calGapOld)."),
     "design_ref": "DESIGN.md §6 C22",
 }
